@@ -1379,7 +1379,8 @@ func (cs *ConsensusState) enterCommit(height uint64, commitRound uint32) {
 
 	// If we don't have the block being committed, set up to get it.
 	// cs.ProposalBlock is confirmed not nil from caller.
-	if !cs.ProposalBlock.HashesTo(blockID.Hash) {
+	// (a block with the committed header hash but another body - other parts - is not the committed block either)
+	if !cs.ProposalBlock.HashesTo(blockID.Hash) || !cs.ProposalBlockParts.HasHeader(blockID.PartsHeader) {
 		if !cs.ProposalBlockParts.HasHeader(blockID.PartsHeader) {
 			logger.Info("Commit is for a block we don't know about. Set ProposalBlock=nil", "commit", blockID)
 			// We're getting the wrong block.
@@ -1406,7 +1407,7 @@ func (cs *ConsensusState) tryFinalizeCommit(height uint64) {
 		return
 	}
 
-	if !cs.ProposalBlock.HashesTo(blockID.Hash) {
+	if !cs.ProposalBlock.HashesTo(blockID.Hash) || !cs.ProposalBlockParts.HasHeader(blockID.PartsHeader) {
 		logger.Info("Attempt to finalize failed. We don't have the commit block.", "proposal-block", cs.ProposalBlock.Hash(), "commit-block", blockID)
 		return
 	}
